@@ -20,6 +20,14 @@ CONSTANTS
   W_QuorumMinusOne = FALSE
   PreVote = TRUE
   W_PreVoteRespCountsAsVote = FALSE
+  ConfChange = FALSE
+  InitVoters = {1, 2, 3}
+  AddVoters = {}
+  RemoveVoters = {}
+  MaxConfChanges = 1000000
+  MaxConfRefusals = 1000000
+  W_ConfChangeNoPendingCheck = FALSE
+  W_AddedVoterCaughtUp = FALSE
 INIT TraceInit
 NEXT TraceNext
 POSTCONDITION TracePost
